@@ -31,6 +31,9 @@ const TARGETED: &[(&str, &str)] = &[
     ("zero-bit-party-first", "pub fn main(n: [u8; 0], x: u8, z: bool) -> u8 {\n  if z { x } else { !x }\n}\n"),
     ("zero-bit-party-last", "struct Z {}\npub fn main(x: u8, z: bool, n: Z) -> u8 {\n  if z { x } else { !x }\n}\n"),
     ("zero-bit-parties-two", "pub fn main(m: (), x: u8, n: (), o: [bool; 0]) -> u8 {\n  x + 1u8\n}\n"),
+    ("all-gates-are-outputs-consts", "pub fn main(x: bool) -> (bool, bool) {\n  (true, false)\n}\n"),
+    ("all-gates-are-outputs", "pub fn main(x: bool, y: bool) -> (bool, bool, bool, bool) {\n  (x & y, false, x ^ y, true)\n}\n"),
+    ("all-gates-are-outputs-but-one", "pub fn main(x: bool, y: bool) -> (bool, bool) {\n  (true, x ^ y)\n}\n"),
     ("panic-and-output-share-wire", "pub fn main(x: u8, y: u8) -> (u8, bool) {\n  (x / y, y == 0u8)\n}\n"),
 ];
 
@@ -323,6 +326,7 @@ pub fn run(tier: Tier) -> i32 {
                                     let b = catch(|| Circuit::bristol_to_garble(&path));
                                     let same = match (&a, &b) {
                                         (Ok(Ok(x)), Ok(Ok(y))) => x.input_gates == y.input_gates && x.gates == y.gates && x.output_gates == y.output_gates,
+                                        (Ok(Err(x)), Ok(Err(y))) => format!("{x:?}").contains(&format!("{y:?}")),
                                         _ => false,
                                     };
                                     if !same {
@@ -393,6 +397,22 @@ pub fn run(tier: Tier) -> i32 {
                             let mut outs: Vec<Vec<usize>> = vec![handed.clone(), vec![w], vec![w, w], vec![w, 1, w, 0, 1]];
                             if handed.len() >= 2 {
                                 outs.push(vec![handed[1], handed[0], handed[1]]);
+                            }
+                            // every non-empty subset of {both constants, every gate}: from "one gate is an
+                            // output" to "every gate and both constants are outputs and nothing else exists"
+                            let pool: Vec<usize> = [0usize, 1].into_iter().chain(handed.iter().copied()).collect();
+                            if pool.len() <= 6 {
+                                for mask in 1u32..(1 << pool.len()) {
+                                    let sub: Vec<usize> = pool.iter().enumerate().filter(|(k, _)| mask >> k & 1 == 1).map(|(_, w)| *w).collect();
+                                    if sub.len() >= 2 || sub[0] < 2 {
+                                        let mut r = sub.clone();
+                                        r.reverse();
+                                        if r != sub {
+                                            outs.push(r);
+                                        }
+                                        outs.push(sub);
+                                    }
+                                }
                             }
                             for o in outs {
                                 let bc = b.clone();
